@@ -440,7 +440,7 @@ func runC19(c *Ctx) {
 			// lookahead-heavy tail for text
 			if !binary && i%3 != 1 {
 				// lookahead-heavy tokens, and CR LF pairs whose folding is visible in the value
-				data = append(data, []byte(" +inf '''a''' '''b''' x::{{aGk=}} null.int '''l1\r\nl2\rl3\n''' {{'''c1\r\nc2'''}} /* c\r\n */ $ion_symbol_table::{symbols:[\"q\"]} $10 // c\r\n 1.5e0\r\n")...)
+				data = append(data, []byte(" +inf '''a''' '''b''' x::{{aGk=}} null.int '''l1\r\nl2\rl3\n''' {{'''c1\r\nc2'''}} '''p\r\n\r\nq\r\n\rr\r\r\ns\n\r\n\rt''' {{'''d1\r\n\r\nd2\r\r\n'''}} '''e\\\r\n\r\nf''' /* c\r\n */ $ion_symbol_table::{symbols:[\"q\"]} $10 // c\r\n 1.5e0\r\n")...)
 			}
 			hx := hex.EncodeToString(data)
 			fam := "text"
